@@ -75,7 +75,7 @@ def norm_type(t):
         t = t.replace(a, b)
     t = t.replace(" ", "")
     t = re.sub(r"ruint<6(\+1|UL)?>", "ruint<K>", t)          # the one-limb / two-limb specialisations: K = 6, 7 of the runs
-    m = re.match(r"^[\w:]+(<.*>)?::(Element|Rep|Type_t|Storage_t|Compute_t|array|Residu_t)$", t)
+    m = re.match(r"^[\w:]+(<.*>)?::(Element|Rep|Type_t|Storage_t|Compute_t|array|Residu_t|Array|constArray)$", t)
     if m:
         t = m.group(2)            # a member typedef of the enclosing domain class (the scope names the class)
     return t
@@ -84,6 +84,10 @@ def norm_type(t):
 def shape_of(params):
     """(shape, T) or None if the declaration is not three-address"""
     dests = {}
+    arr_d = [k for k, p in enumerate(params) if norm_type(p) == "Array"]
+    arr_c = [k for k, p in enumerate(params) if norm_type(p) == "constArray"]
+    if arr_d and arr_c:       # pointer-to-elements forms op(sz, Array r, constArray a, ...): the arrays may be the same array
+        return "".join("D" if k in arr_d else "C" if k in arr_c else "x" for k in range(len(params))), "Array"
     for k, p in enumerate(params):
         p = p.strip()
         if p.endswith("&") and not p.endswith("&&") and not p.startswith("const "):
